@@ -10,10 +10,10 @@ correspondence of the `conn` scenarios (real kgo client × scripted peer in sync
 `Model.C22Frame.parseFrame`, the Lean model of `readConn` / `parseReadSize` / `readResponse` / `SkipTags`, tied to
 the code by the error-class comparison of the same scenarios.
 
-Full statement of the last clause of the property, "never … waits beyond the configured timeouts", as a parser
-statement: `∀ stream, (parseFrame maxRead corr flex closed stream).steps ≤ c * stream.length + c`. It is FALSE for
-flexible headers (`parseFrame_steps_not_linear`, a 13-byte frame needs 4294967308 steps); what holds is
-`parseFrame_steps_nonflexible_partial` (non-flexible headers) and the absolute bound `parseFrame_steps_bounded`. -/
+The last clause of the property, "never … waits beyond the configured timeouts", as a parser statement: the work
+per response is linear in the bytes received, `parseFrame_steps_linear` (every header kind). It was FALSE before the
+repair of C22.tag-count-unbounded-loop (/repo 994d56c): `unrepaired_tag_loop_not_linear` keeps the 13-byte witness
+that needed 4294967308 steps against the loop as it was (`parseFrameUnrepaired`). -/
 namespace Props.C22
 open Model.Conn Model.C22Frame Proof.Conn Proof.C22Frame
 
@@ -141,46 +141,13 @@ theorem accepted_frame_carries_correlation_id (maxRead corr : Nat) (flex closed 
     (h : (parseFrame maxRead corr flex closed stream).res = .deliver body) : u32? (stream.drop 4) = some corr :=
   deliver_carries_corr h
 
-/-- The executable parser of the driver (early exit of the tag loop once the reader has failed) is the model. -/
-theorem parseFrameFast_is_parseFrame : parseFrameFast = parseFrame := parseFrameFast_eq
-
-/-- Linear work for non-flexible response headers: at most one step per byte of the stream.
-(Full statement for all headers: see the module comment; false for flexible ones.) -/
-theorem parseFrame_steps_nonflexible_partial (maxRead corr : Nat) (closed : Bool) (stream : Bytes) :
-    (parseFrame maxRead corr false closed stream).steps ≤ stream.length := by
+/-- Linear work for every header kind: at most two steps per byte of the stream (bytes read plus tag-loop
+iterations; an iteration that leaves the reader valid consumes at least two bytes, the first failing one is the last). -/
+theorem parseFrame_steps_linear (maxRead corr : Nat) (flex closed : Bool) (stream : Bytes) :
+    (parseFrame maxRead corr flex closed stream).steps ≤ 2 * stream.length + 1 := by
   unfold parseFrame parseFrameWith
   split
-  · simp
-  · rename_i sz hsz
-    have h4 := u32?_some_length hsz
-    dsimp only
-    split
-    · simpa using h4
-    · split
-      · simpa using h4
-      · split
-        · simpa using h4
-        · rename_i n hn
-          split
-          · simp only [List.length_drop]; omega
-          · rename_i hav
-            simp only [List.length_drop] at hav
-            split
-            · simp only; omega
-            · split
-              · simp only; omega
-              · split
-                · simp only; omega
-                · split
-                  · simp only; omega
-                  · simp only [Bool.false_eq_true, if_false]; omega
-
-/-- Absolute bound for every header kind (termination): the tag count is a uvarint, below 2³². -/
-theorem parseFrame_steps_bounded (maxRead corr : Nat) (flex closed : Bool) (stream : Bytes) :
-    (parseFrame maxRead corr flex closed stream).steps ≤ stream.length + 4294967295 := by
-  unfold parseFrame parseFrameWith
-  split
-  · simp
+  · simp only; omega
   · rename_i sz hsz
     have h4 := u32?_some_length hsz
     dsimp only
@@ -203,27 +170,48 @@ theorem parseFrame_steps_bounded (maxRead corr : Nat) (flex closed : Bool) (stre
                 · simp only; omega
                 · split
                   · simp only; omega
-                  · split
-                    · rename_i body _ _
-                      have := rdUvarint_lt ⟨body, false⟩
-                      simp only; omega
+                  · rename_i body hbody
+                    have hbuflen : (List.take n (List.drop 4 stream)).length = n := by
+                      rw [List.length_take, List.length_drop]; omega
+                    have hbl : body.length + 4 ≤ n := by
+                      unfold from4? at hbody
+                      split at hbody
+                      · simp at hbody
+                      · rename_i h4'
+                        injection hbody with hbody
+                        rw [← hbody, List.length_drop, hbuflen]
+                        rw [hbuflen] at h4'
+                        omega
+                    split
+                    · have hit := skipLoop_iters (rdUvarint ⟨body, false⟩).1 (rdUvarint ⟨body, false⟩).2
+                      have hlen : (rdUvarint ⟨body, false⟩).2.src.length ≤ body.length := by
+                        unfold rdUvarint
+                        split
+                        · simp
+                        · simp only [List.length_drop]; omega
+                      simp only
+                      omega
                     · simp only; omega
 
 /-- a 9-byte response (13 bytes with the size prefix): correlation id 1 and a flexible-header tag count of 2³²−1 -/
 def tagWitness : Bytes := [0, 0, 0, 9, 0, 0, 0, 1, 0xff, 0xff, 0xff, 0xff, 0x0f]
 
-theorem tagWitness_steps : (parseFrame 4096 1 true true tagWitness).steps = 4294967308 := by decide
+/-- the repaired loop gives up after the first iteration (14 steps: 13 bytes and one iteration) and refuses the frame -/
+theorem tagWitness_steps : (parseFrame 4096 1 true true tagWitness).steps = 14 := by decide
+theorem tagWitness_refused : (parseFrame 4096 1 true true tagWitness).res = .short := by decide
 
-/-- The step count of flexible headers is NOT linear in the input: the tag loop runs as often as the input says. -/
-theorem parseFrame_steps_not_linear :
-    ¬ ∀ stream : Bytes, (parseFrame 4096 1 true true stream).steps ≤ 16 * stream.length + 16 := by
+/-- Record of the repaired defect: with the loop as it was (`num > 0` only) the step count was NOT linear in the
+input, the tag loop ran as often as the input said: 4294967308 steps for the 13-byte witness. -/
+theorem tagWitness_steps_with (loop : Nat → Rd → Rd × Nat) :
+    (parseFrameWith loop 4096 1 true true tagWitness).steps = 4 + 9 + (loop 4294967295 ⟨[], false⟩).2 := by rfl
+
+theorem unrepaired_tag_loop_not_linear :
+    ¬ ∀ stream : Bytes, (parseFrameUnrepaired 4096 1 true true stream).steps ≤ 16 * stream.length + 16 := by
   intro h
-  have := h tagWitness
-  rw [tagWitness_steps] at this
-  simp [tagWitness] at this
-
-/-- ... and the witness is refused in the end (the reader has failed), so the work is wasted. -/
-theorem tagWitness_refused : (parseFrameFast 4096 1 true true tagWitness).res = .short := by decide
+  have h1 := h tagWitness
+  unfold parseFrameUnrepaired at h1
+  rw [tagWitness_steps_with, skipLoopUnbounded_iters] at h1
+  simp [tagWitness] at h1
 
 /-! ### non-vacuity -/
 
